@@ -113,10 +113,11 @@ def units():
               "replace": ["psf_ftell", "psf_fseek", "psf_fwrite"],
               "trusted": ["E1 model of psf_binheader_writef (advances the header cache index)", "packet_writer_c: effect of sds_{2,3,4}byte_write on position and counters (frame contract, not enforced)",
                           "ghost file position driven by the psf_ftell / psf_fseek / psf_fwrite contracts"]})
-    for cname, fn in (("au", "au_read_header"), ("avr", "avr_read_header"), ("htk", "htk_read_header"), ("wve", "wve_read_header"), ("mpc2k", "mpc2k_read_header")):
+    for cname, fn in (("au", "au_read_header"), ("avr", "avr_read_header"), ("htk", "htk_read_header"), ("wve", "wve_read_header"), ("mpc2k", "mpc2k_read_header"),
+                      ("mat4", "mat4_read_header"), ("mat5", "mat5_read_header"), ("ircam", "ircam_read_header")):
         U.append({"name": "parser." + cname, "props": ["C03"], "harness": "parser.harness.c", "entry": "h_parser", "dfcc": False,
                   "function": "%s.c:%s" % (cname, fn), "defines": ["-DPARSER_FILE=\"%s.c\"" % cname, "-DREAD_FN=" + fn],
-                  "cbmc_flags": ["--object-bits", "9", "--unwind", "12"], "timeout": 600, "drop_flags": ["--signed-overflow-check"],
+                  "cbmc_flags": ["--object-bits", "9", "--unwind", "12", "--unwindset", "strlen.0:260"], "timeout": 600, "drop_flags": ["--signed-overflow-check"],
                   "note": "signed overflow of arithmetic on hostile header fields is not checked here (seen: htk.c 2 * sample_count + 12, offsets near INT_MAX): the property speaks of memory errors, hangs and insane info",
                   "kind": "proof(every value read from the file unconstrained; loops over format strings unwound completely)",
                   "trusted": ["E1 model of psf_binheader_readf driven by the format string (destinations checked for the field / block size, filled with unconstrained bytes)",
